@@ -538,8 +538,11 @@ def run(ctx):
     ctx.bounds["tiny_curves_over_quadratic_fields"] = nq
     # the long full-size tasks first (better packing on 16 workers)
     tasks = C07_full.plan(ctx) + tasks
+    tasks += C07_tiny_twist.plan(ctx)
     ctx.pmap(ME, tasks)
 
 
 # full-size tasks live in C07_full but are dispatched through this module's namespace
+from . import C07_tiny_twist  # noqa: E402
+from .C07_tiny_twist import task_tiny_twist  # noqa: E402,F401
 from .C07_full import task_full_pairs, task_full_mul, task_full_consts, task_full_twist, task_full_bfs  # noqa: E402,F401
